@@ -481,7 +481,14 @@ def table_directed(samples=50000):
         lines = ["reciprocal 64 %s" % Z(d) for d in ds]
         res = C.run_harness(BIN, "release", lines) if os.path.exists(exe) else []
         bad = [ln for ln, d, r in zip(lines, ds, res) if r != "Z:%x" % recip(d)]
-        out += bad[:20] + lines[:200]
+        # native scan of the row (2^25 divisors, a fraction of a second): a changed entry can spoil the
+        # reciprocal for as few as ~1e-6 of the row's divisors, far below what 50000 samples reach
+        scan = C.run_harness(BIN, "release", ["recip_scan 64 Z:%x Z:%x Z:%x" % (i, 1 << 25, 0x9E3779B97F4A7C15 ^ i)]) \
+            if os.path.exists(exe) else []
+        for r in scan:
+            if r.startswith("S:") and len(r) > 2:
+                bad += ["reciprocal 64 Z:%s" % h for h in r[2:].split(",")]
+        out += bad[:30] + lines[:200]
     return out
 
 
